@@ -764,6 +764,27 @@ func cmdLocals(args []string) {
 		os.Exit(2)
 	}
 	out := map[string]*strings.Builder{"": {}, "main": {}}
+	// the promises of a function are evaluated in the goroutines it starts: the locals they name are
+	// locals of those closures
+	extra := map[string]map[string]bool{}
+	for _, name := range c.SortedFuncNames() {
+		fc := c.Funcs[name]
+		fn := p.Lookup(name)
+		if fn == nil || len(fc.Promises) == 0 {
+			continue
+		}
+		for _, an := range fn.AnonFuncs {
+			an := p.FuncName(an)
+			if extra[an] == nil {
+				extra[an] = map[string]bool{}
+			}
+			for _, cl := range fc.Promises {
+				for _, id := range identsOf(cl.Expr) {
+					extra[an][id] = true
+				}
+			}
+		}
+	}
 	for _, name := range c.SortedFuncNames() {
 		fc := c.Funcs[name]
 		if fc.Extern || fc.Slot {
@@ -774,6 +795,9 @@ func cmdLocals(args []string) {
 			continue
 		}
 		ids := map[string]bool{}
+		for id := range extra[name] {
+			ids[id] = true
+		}
 		add := func(cls []*Clause) {
 			for _, cl := range cls {
 				for _, id := range identsOf(cl.Expr) {
